@@ -176,7 +176,7 @@ impl PropImpl for C12 {
         vec!["op:<<", "op:<=", "op:=", "op:>=", "op:>>", "installed:lower", "installed:equal", "installed:higher", "installed:absent", "installed:equal-but-spelled-differently", "epoch-vs-no-epoch", "tilde", "expected:satisfied", "expected:unsatisfied"]
     }
     fn budget(&self, tier: Tier) -> Budget {
-        Budget { cases_per_lane: if tier == Tier::Quick { 10000 } else { 60_000 }, tape_max: 200, cpu_s: 10 }
+        Budget { cases_per_lane: if tier == Tier::Quick { 30000 } else { 120000 }, tape_max: 200, cpu_s: 10 }
     }
     fn spaces(&self, _tier: Tier) -> Vec<Space> {
         vec![
